@@ -67,7 +67,7 @@ def _build_vexec(race):
     except OSError:
         pass
     out = os.path.join(WORK, "bin", "vexec_race" if race else "vexec")
-    cover = ["-cover", "-coverpkg=github.com/0chain/common/..."] if os.environ.get("VERIF_COVER") else []   # with GOCOVERDIR set: statement coverage of /repo by the executors
+    cover = ["-cover", "-coverpkg=all"] if os.environ.get("VERIF_COVER") else []   # with GOCOVERDIR set: statement coverage of /repo by the executors
     cmd = ["go", "build", "-tags", "verif"] + cover + (["-race"] if race else []) + ["-o", out, "./cmd/vexec"]
     p = subprocess.run(cmd, cwd=HARNESS, env=GOENV, capture_output=True, text=True)
     if p.returncode != 0:
